@@ -96,7 +96,23 @@ def _div_bound():
                  "(Python floor division)", requires, ensures, proof)
 
 
-LEMMAS = {l.name: l for l in (_psum_mono(), _prod_pos(), _div_bound())}
+def _prod_unfold():
+    prod = z3.Function("prod", IntArr, I, I, I)
+    return Lemma("prod_unfold", "definition of prod, recursive case (definitional: nothing to prove)",
+                 lambda a, lo, hi: lo < hi,
+                 lambda a, lo, hi: prod(a, lo, hi) == a[lo] * prod(a, lo + 1, hi),
+                 lambda: [])
+
+
+def _psum_unfold():
+    psum = z3.Function("psum", IntArr, I, I)
+    return Lemma("psum_unfold", "definition of psum, recursive case (definitional: nothing to prove)",
+                 lambda a, i: i >= 0,
+                 lambda a, i: psum(a, i + 1) == psum(a, i) + a[i],
+                 lambda: [])
+
+
+LEMMAS = {l.name: l for l in (_psum_mono(), _prod_pos(), _div_bound(), _prod_unfold(), _psum_unfold())}
 
 
 def lemma_proof_tasks():
